@@ -218,9 +218,7 @@ def step (line : String) : String :=
       let v := if KeyEnc.pressedChord k then
           (if impl.endsWith "|1" then "ok"
            else
-             -- which region of the chord space this is (for the known-findings file)
-             let cls := if k.mods &&& KeyEnc.capsBit ≠ 0 ∧ k.text ≠ strOfRune (u.toUpper k.keycode) ∧ u.toUpper k.keycode ≠ k.keycode then "caps-lock letter reported without its upper-case text"
-                        else "chord"
+             let cls := "chord"
              s!"FAIL self-match [{cls}]: key {showKey k} does not match its own String() {impl}") else "-"
       s!"{model}\t{impl}\t{v}"
     | _, _, _ => bad
